@@ -477,7 +477,15 @@ func (c0 *genCtx) dataExpr(d int) node {
 		p := c.fresh()
 		cc.vars = append(cc.vars, p)
 		cc.self, cc.labels, cc.inLoop = nil, nil, 0
-		return nApp("first", nApp("map", nFn(strict(p), "", cc.intExpr(d-1)), nArr(mk(1+c.r.intn(2))...)))
+		coll := nArr(mk(1 + c.r.intn(3))...)
+		if c.r.bool() {
+			coll = nApp("list", mk(2+c.r.intn(2))...) // map over a list: same left-to-right order of application
+		}
+		body := cc.tr(cc.intExpr(d - 1))
+		if c.r.bool() {
+			return nApp("len", nApp("map", nFn(strict(p), "", body), coll))
+		}
+		return nApp("first", nApp("map", nFn(strict(p), "", body), coll))
 	case 6:
 		return nApp("apply", nSym(pick(c.r, []string{"+", "*", "-"})), nArr(mk(1+c.r.intn(3))...))
 	case 7:
